@@ -180,6 +180,12 @@ def quick_family() -> List[Skeleton]:
     add("operand $not last", [E(nm.m(), [E(nm.o()), E("$not", [E(nm.o())])]), E(nm.m())], "opnd", "not")
     add("operand $not times", [E(nm.m(), [E("$not", [E(nm.o())], 2)])], "opnd", "not", "times")
     add("operand $not in $or", [E(nm.m(), [E("$or", [E("$not", [E(nm.o())]), E(nm.o())])])], "opnd", "not")
+    add("operand $not of $deref", [E(nm.m(), [E("$not", [E("$deref", fields={"main_reg": E(nm.d())})]), E(nm.o())])], "opnd", "not", "deref")
+    add("operand $not of $or whose first alternative is a $deref", [E(nm.m(), [E("$not", [E("$or", [
+        E("$deref", fields={"main_reg": E(nm.d()), "constant_offset": E(nm.d())}), E(nm.o())])]), E(nm.o())])], "opnd", "not", "deref")
+    add("operand $not of a register capture seen before", [E(nm.m(), [E("&genreg.64"), E(nm.o())]),
+                                                          E(nm.m(), [E("$not", [E("&genreg.64")]), E(nm.o())])], "opnd", "not", "regcap")
+    add("instruction $not of an instruction capture seen before", [E("&i"), E("$not", [E("&i")]), E(nm.m())], "not", "cap")
     # --- $deref presence patterns (C06)
     for b, c, k in itertools.product([False, True], repeat=3):
         f: Dict[str, Any] = {"main_reg": E(nm.d())}
@@ -205,6 +211,8 @@ def quick_family() -> List[Skeleton]:
     add("$deref zero offset only", [E(nm.m(), [E("$deref", fields={"main_reg": E(nm.d()), "constant_offset": E(0)}), E(0)])], "deref")
     # --- capture groups (C05)
     add("instr capture twice", [E("&i"), E(nm.m()), E("&i")], "cap")
+    add("instr capture whose name begins like a register family", [E("&genreg-first"), E(nm.m()), E("&genreg-first"),
+                                                                  E("&stackreg-adjust")], "cap")
     add("operand capture twice", [E(nm.m(), [E("&x"), E(nm.o())]), E(nm.m(), [E(nm.o()), E("&x")])], "cap")
     add("two names interleaved", [E(nm.m(), [E("&x"), E("&y")]), E(nm.m(), [E("&y"), E("&x")]), E("&i"),
                                   E(nm.m(), [E("&x")]), E("&i")], "cap")
@@ -212,9 +220,9 @@ def quick_family() -> List[Skeleton]:
                                                E(nm.m(), [E("$or", [E("&x"), E(nm.o())])])], "cap", "ops")
     add("later occurrence under operand $not/any_order", [
         E(nm.m(), [E("&x"), E("&y")]),
-        E(nm.m(), [E("$not", [E("&x")]), E("$and_any_order", [E("&y"), E(nm.o())])])], "cap", "ops")
+        E(nm.m(), [E("$not", [E("&x")]), E("$and_any_order", [E("&y"), E(nm.o())])])], "cap", "ops", "not")
     add("later instr occurrence under $or/$not", [E("&i"), E("$or", [E("&i"), E(nm.m())]),
-                                                  E("$not", [E("&i")])], "cap", "ops")
+                                                  E("$not", [E("&i")])], "cap", "ops", "not")
     add("capture in deref field then operand", [
         E(nm.m(), [E("$deref", fields={"main_reg": E("&r"), "constant_offset": E("&k")})]),
         E(nm.m(), [E("&r"), E("&k")])], "cap", "deref")
